@@ -217,52 +217,65 @@ func c13Stream(c *cur) string {
 		want = append(want, enc(m))
 	}
 	notes := []string{}
-	rdr := &schedReader{s: s}
 	var got, raws []string
 	var rawKept [][]byte // the slices as returned, looked at again after the whole stream was read
 	sawEOF := false
-	for i := 0; i < len(docs)+3; i++ {
-		var m map[string]interface{}
-		var rb []byte
-		var err error
-		switch {
-		case kind == "xml" && !raw:
-			m, err = mxj.NewMapXmlReader(rdr)
-		case kind == "xml":
-			m, rb, err = mxj.NewMapXmlReaderRaw(rdr)
-		case kind == "seq" && !raw:
-			var ms mxj.MapSeq
-			ms, err = mxj.NewMapXmlSeqReader(rdr)
-			m = ms
-		case kind == "seq":
-			var ms mxj.MapSeq
-			ms, rb, err = mxj.NewMapXmlSeqReaderRaw(rdr)
-			m = ms
-		case !raw:
-			m, err = mxj.NewMapJsonReader(rdr)
-		default:
-			m, rb, err = mxj.NewMapJsonReaderRaw(rdr)
-		}
-		if err == io.EOF {
-			sawEOF = true
-			if len(m) > 0 {
-				notes = append(notes, "a Map was returned together with io.EOF")
+	readLoop := func(rdr io.Reader, label string) {
+		got, raws, rawKept, sawEOF = nil, nil, nil, false
+		for i := 0; i < len(docs)+3; i++ {
+			var m map[string]interface{}
+			var rb []byte
+			var err error
+			switch {
+			case kind == "xml" && !raw:
+				m, err = mxj.NewMapXmlReader(rdr)
+			case kind == "xml":
+				m, rb, err = mxj.NewMapXmlReaderRaw(rdr)
+			case kind == "seq" && !raw:
+				var ms mxj.MapSeq
+				ms, err = mxj.NewMapXmlSeqReader(rdr)
+				m = ms
+			case kind == "seq":
+				var ms mxj.MapSeq
+				ms, rb, err = mxj.NewMapXmlSeqReaderRaw(rdr)
+				m = ms
+			case !raw:
+				m, err = mxj.NewMapJsonReader(rdr)
+			default:
+				m, rb, err = mxj.NewMapJsonReaderRaw(rdr)
 			}
-			break
+			if err == io.EOF {
+				sawEOF = true
+				if len(m) > 0 {
+					notes = append(notes, label+"a Map was returned together with io.EOF")
+				}
+				break
+			}
+			if err != nil {
+				notes = append(notes, fmt.Sprintf("%sdocument %d: unexpected error %s", label, i, oneLine(err.Error())))
+				break
+			}
+			got = append(got, enc(m))
+			raws = append(raws, string(rb))
+			rawKept = append(rawKept, rb)
 		}
-		if err != nil {
-			notes = append(notes, fmt.Sprintf("document %d: unexpected error %s", i, oneLine(err.Error())))
-			break
+		for i, rb := range rawKept {
+			if string(rb) != raws[i] {
+				notes = append(notes, fmt.Sprintf("%sRAWKEPT Raw value %d changed while later documents were read", label, i))
+				break
+			}
 		}
-		got = append(got, enc(m))
-		raws = append(raws, string(rb))
-		rawKept = append(rawKept, rb)
 	}
-	for i, rb := range rawKept {
-		if string(rb) != raws[i] {
-			notes = append(notes, fmt.Sprintf("RAWKEPT Raw value %d changed while later documents were read", i))
-			break
+	// a reader that hands over several bytes per Read and has no ReadByte method (a socket, a
+	// response body): nothing beyond the current document may be consumed
+	if !hasFail(s) {
+		readLoop(&chunkReader{data: []byte(stream), sizes: []int{7, 1, 64, 3, 1000, 2, 16}}, "CHUNKED ")
+		if len(notes) == 0 && (!sawEOF || strings.Join(got, "\x00") != strings.Join(want, "\x00")) {
+			notes = append(notes, fmt.Sprintf("CHUNKED reading through a reader that delivers several bytes per Read: got %d documents (EOF seen: %v), want %d", len(got), sawEOF, len(want)))
 		}
+	}
+	if len(notes) == 0 {
+		readLoop(&schedReader{s: s}, "")
 	}
 	if len(notes) == 0 {
 		if !sawEOF {
@@ -352,6 +365,39 @@ func c13Stream(c *cur) string {
 		}
 	}
 	return "ok | " + strings.Join(notes, "; ")
+}
+
+// chunkReader delivers the stream in chunks of cycling sizes; it implements io.Reader only.
+type chunkReader struct {
+	data  []byte
+	sizes []int
+	n     int
+}
+
+func (c *chunkReader) Read(p []byte) (int, error) {
+	if len(c.data) == 0 {
+		return 0, io.EOF
+	}
+	k := c.sizes[c.n%len(c.sizes)]
+	c.n++
+	if k > len(p) {
+		k = len(p)
+	}
+	if k > len(c.data) {
+		k = len(c.data)
+	}
+	copy(p, c.data[:k])
+	c.data = c.data[k:]
+	return k, nil
+}
+
+func hasFail(s []rd) bool {
+	for _, x := range s {
+		if x.kind == 'F' {
+			return true
+		}
+	}
+	return false
 }
 
 func containsEmptyObject(docs []string) bool {
